@@ -78,8 +78,8 @@ func c13Scenario(provider, kinds string, serve bool, bound int) e3Scenario {
 				return out
 			}
 			for i := 0; i < n; i++ {
-				if kinds[i] == 'F' {
-					continue // nothing reaches the client; only the ledger verdict counts
+				if kinds[i] == 'F' || kinds[i] == 'H' {
+					continue // nothing (no labelled body) reaches the client; only the ledger verdict counts
 				}
 				got, enc, err := decodeBody(recs[i])
 				if err != nil {
@@ -118,7 +118,7 @@ func c13Scenario(provider, kinds string, serve bool, bound int) e3Scenario {
 func c13Scenarios(tier string) []e3Scenario {
 	var out []e3Scenario
 	providers := []string{"bounded0", "bounded1", "bounded2", "syncpool"}
-	pairs := []string{"NN", "DD", "NE", "NP", "NC", "RR", "NR", "PP", "CC", "NF", "FF", "XR", "XX"}
+	pairs := []string{"NN", "DD", "NE", "NP", "NC", "RR", "NR", "PP", "CC", "NF", "FF", "XR", "XX", "NH", "HH"}
 	bound := 2
 	if tier == "thorough" {
 		pairs = append(pairs, "ND", "EE", "DC", "RP", "NNN", "NNP", "RRR", "NDC", "NER", "DDD")
@@ -149,6 +149,6 @@ func c13Scenarios(tier string) []e3Scenario {
 func checkC13(run *h.Run) {
 	e3RunAll(run, nil)
 	run.Cov["distinct_nontrivial"] = run.Cov["schedules"]
-	run.Cov["rule"] = "E3: stateless exploration of all thread schedules (scheduling points = RWMutex Lock/RLock, Pool Get/Put, every channel operation, harness points inside handlers, body reads and every write to the connection; Pool.Get hand-out is an owned choice) with iterative preemption bounding (quick: 2 concurrent requests, bound 2; thorough: up to 3 requests, bound 3) for every provider in {bounded(0), bounded(1), bounded(2), sync.Pool, and bounded caches with unequal writer/reader capacities (2,1), (1,0), (1,2) (quick: on the tuples NN, RR, NR, XR)} x request-kind tuple over {N gzip response, D deflate response, E routing error through the encoder, F underlying writer fails every write, X corrupt gzip request body, P recovered panic after partial output, C handler closes the writer twice, R gzip request body read in chunks} x entry point. Every complete execution is non-trivial: ledger verdict, blocked-in-provider events, deadlock, decoded bodies. Each execution runs the real (instrumented) package."
+	run.Cov["rule"] = "E3: stateless exploration of all thread schedules (scheduling points = RWMutex Lock/RLock, Pool Get/Put, every channel operation, harness points inside handlers, body reads and every write to the connection; Pool.Get hand-out is an owned choice) with iterative preemption bounding (quick: 2 concurrent requests, bound 2; thorough: up to 3 requests, bound 3) for every provider in {bounded(0), bounded(1), bounded(2), sync.Pool, and bounded caches with unequal writer/reader capacities (2,1), (1,0), (1,2) (quick: on the tuples NN, RR, NR, XR)} x request-kind tuple over {N gzip response, D deflate response, E routing error through the encoder, F underlying writer fails every write, X corrupt gzip request body, P recovered panic after partial output, C handler closes the writer twice, H handler takes the Content-Encoding header off the response and answers 304, R gzip request body read in chunks} x entry point. Every complete execution is non-trivial: ledger verdict, blocked-in-provider events, deadlock, decoded bodies. Each execution runs the real (instrumented) package."
 	run.Assume = []string{"sequentially consistent interleavings at synchronisation granularity", "shim RWMutex/Pool faithful to sync (writer preference; pool may drop or return any pooled object)", "compress/* trusted"}
 }
